@@ -8,8 +8,12 @@
    and their Boolean combinations; equality iff neither is less).
    PARTIAL: the Gallina definitions of Rust's str primitives (find, rfind, split, splitn, replace, replacen,
    match_indices, case maps, char classes) are modelled, their agreement with std on ASCII is checked by the
-   correspondence run on every operation; strip / replace / count / case / class laws are not stated as theorems. *)
-From ArrRs Require Import Index Axis Broadcast Broadcast_proofs Str Str_proofs.
+   correspondence run on every operation.  FURTHER LAWS PROVED: stripping removes exactly a maximal prefix / suffix of
+   characters of the set (lstrip, rstrip, strip: a = pre ++ stripped ++ suf with pre, suf inside the set and the
+   stripped string neither starting nor ending inside it); the occurrence count is the number of split pieces minus
+   one; upper / lower keep the length, are idempotent, upper leaves no lower-case letter and changes nothing else;
+   swapcase is an involution.  replace / class predicates are not stated as theorems. *)
+From ArrRs Require Import Index Axis Broadcast Broadcast_proofs Str Str_proofs Strlaws_proofs.
 
 Theorem C17_lift2 : forall (U : Type) (f : str -> str -> U) (a b : arr str),
   wf a -> wf b -> pos_shape (shape a) -> pos_shape (shape b) -> is_broadcastable (shape a) (shape b) = Ok tt ->
@@ -51,6 +55,34 @@ Theorem C17_cmp : forall a b,
   s_not_equal a b = negb (s_equal a b) /\
   s_equal a b = negb (s_less a b) && negb (s_greater a b).
 Proof. exact compare_spec. Qed.
+
+Theorem C17_strip : forall a chars : str,
+  exists pre suf, a = pre ++ s_strip a chars ++ suf /\ forallb (in_set chars) pre = true /\ forallb (in_set chars) suf = true /\
+    Edit_proofs.starts_without (in_set chars) (s_strip a chars) /\ Edit_proofs.starts_without (in_set chars) (rev (s_strip a chars)).
+Proof. exact strip_spec. Qed.
+
+Theorem C17_lstrip : forall a chars : str,
+  exists pre, a = pre ++ s_lstrip a chars /\ forallb (in_set chars) pre = true /\ Edit_proofs.starts_without (in_set chars) (s_lstrip a chars).
+Proof. exact lstrip_spec. Qed.
+
+Theorem C17_rstrip : forall a chars : str,
+  exists suf, a = s_rstrip a chars ++ suf /\ forallb (in_set chars) suf = true /\ Edit_proofs.starts_without (in_set chars) (rev (s_rstrip a chars)).
+Proof. exact rstrip_spec. Qed.
+
+Theorem C17_count : forall s sub : str, sub <> [] -> S (count_str s sub) = length (split_str s sub None).
+Proof. exact count_is_pieces_minus_one. Qed.
+
+Theorem C17_case_maps : forall a : str,
+  length (s_upper a) = length a /\ length (s_lower a) = length a /\ length (s_swapcase a) = length a /\
+  s_upper (s_upper a) = s_upper a /\ s_lower (s_lower a) = s_lower a /\ s_swapcase (s_swapcase a) = a.
+Proof.
+  intros a. destruct (upper_lower_length a) as (A & B & C).
+  repeat split; auto using upper_idempotent, lower_idempotent, swapcase_involutive.
+Qed.
+
+Theorem C17_upper : forall (a : str) k, k < length a ->
+  is_lower_c (nth k (s_upper a) 0%Z) = false /\ (is_lower_c (nth k a 0%Z) = false -> nth k (s_upper a) 0%Z = nth k a 0%Z).
+Proof. exact upper_spec. Qed.
 
 Example C17_nonvacuous :
   split_str [97;98;45;99;100;45;101;102]%Z [45]%Z None = [[97;98];[99;100];[101;102]]%Z /\
